@@ -16,6 +16,7 @@ def x509signDispatch (toks : List String) : Option String :=
   | ["csrrt", s, a, _] => some (acc s a)
   | ["crlrt", s, a, _, _] => some (acc s a)
   | ["issue2", _] => some "ok"
+  | ["tmplreuse", _] => some "ok"   -- intrinsic oracle in the harness: SM2 signer, algorithm left to default
   | _ => none
 
 end Driver
